@@ -28,15 +28,15 @@ CLAIMED.update({
          "Seeded search over (cookie, names, flags, timeout, network behaviour, 1..3 attempts with at most one peer deviation each) on the real connect path, and over 3..12-step API histories checked step by step against a reference model that remembers the challenge issued since the last disconnect. Oracle: connected only with proof; flags are the intersection; emitted handshake bytes parse with an independent reader; non-conforming peers end in an error within the timeout of the deviation. Sampling, not proof.",
          "Trusted: tokio paused clock and scheduler, md-5 primitive, the simulator's peer model and handshake layouts (written from the protocol documents), EPMD stub conforms.",
          "DESIGN.md section 3, C04"),
- "C17": ("deterministic simulation: concurrent rpc_call* on a real Node against a simulated rex that delays, reorders, duplicates, drops and misaddresses replies; connection faults (peer close/reset, write error); seeded yield points around the outstanding-call table; history oracle + table inspected at quiescence",
+ "C17": ("deterministic simulation: concurrent rpc_call* on a real Node against a simulated rex that delays, reorders, duplicates, drops and misaddresses replies; connection faults (peer close/reset, write error); calls to a second, fault-free node interleaved; seeded yield points around the outstanding-call table; history oracle + table inspected at quiescence",
          "Seeded search over (1..8 callers x 1..4 calls, per-call reply behaviour and delay relative to the caller's timeout, network behaviour, yield-point subset, optional connection fault). Oracle over the recorded history: every Ok is a reply the peer addressed to that call's own reply pid, no reply is returned twice, error kinds are admissible for what was injected, the outstanding-call table is empty at quiescence, a fresh call succeeds once faults stopped. Sampling, not proof.",
          "Trusted: tokio (paused clock, oneshot, Mutex), dashmap, the rex/peer model and its independent frame reader; single runtime thread per run (interleavings only at await/yield points).",
          "DESIGN.md section 3, C17"),
- "C19": ("deterministic simulation: scripted peer sends inbound frame sequences (routable, unroutable, undecodable, ticks, quiet gaps up to 10 simulated minutes, over-long length, premature close, reset) to a real Node with recorder processes under simulated time; routing history and connections() membership over time are checked",
-         "Seeded search over inbound frame scripts x recipients (live, dead, never existing, registered/unregistered names, outstanding rpc) x tick period x network behaviour x fatal event x reconnect. Oracle: per-recipient delivered sequence equals the script's expectation exactly (fields intact, order, exactly once); at every checkpoint before a fatal event the connection is registered and a probe rpc gets through; after a fatal event it is deregistered within a bound; reconnect works. Sampling, not proof.",
+ "C19": ("deterministic simulation: scripted peer sends inbound frame sequences (routable, unroutable, undecodable, ticks, quiet gaps up to 10 simulated minutes, over-long length, premature close, reset) to a real Node with recorder processes under simulated time, in a third of the runs with a second, well-behaved node connected to the same Node at the same time; routing history and connections() membership over time are checked",
+         "Seeded search over inbound frame scripts x recipients (live, dead, never existing, registered/unregistered names, outstanding rpc) x tick period x network behaviour x fatal event x reconnect. Oracle: per-recipient delivered sequence equals the script's expectation exactly (fields intact, order, exactly once); at every checkpoint before a fatal event the connection is registered and a probe rpc gets through; after a fatal event it is deregistered within a bound; reconnect works; the second node's messages, outstanding call and connection are untouched by whatever the first peer does. Sampling, not proof.",
          "Trusted: tokio paused clock/scheduler, the peer script and its independent encoder; mid-frame delays are kept below the read timeout.",
          "DESIGN.md section 3, C19"),
- "C07": ("deterministic simulation: 1..6 tasks send through one real Node/Connection over a simulated socket whose writes are short and stall between the partial writes of a frame; an independent protocol reader on the peer end parses the byte stream; write-error and peer-close faults",
+ "C07": ("deterministic simulation: 1..6 tasks send through one real Node/Connection over a simulated socket whose writes are short and stall between the partial writes of a frame; an independent protocol reader on the peer end parses the byte stream; write-error and peer-close faults, the peer going away and the application connecting again",
          "Seeded search over (operation sequences with seeded arguments, both framing modes, task count, write perturbation, optional fault). Oracle from the peer's independent reader: the stream is a sequence of whole frames in the negotiated mode; frames and operations that returned Ok are in bijection; each frame carries the protocol's control tuple for the operation and exactly the given payload; per task, frames appear in issue order; operations before the handshake write nothing. Sampling, not proof.",
          "Trusted: tokio, the simulator's independent frame/header/term reader (written from the protocol documents), payload sub-space of DESIGN 2.4.",
          "DESIGN.md section 3, C07"),
@@ -98,7 +98,7 @@ def main():
         ],
         "checks": checks,
         "not_applicable": na,
-        "notes": "See DESIGN.md (section 9 is the as-built account; 9.8 lists what each check varies). /verif/known_findings.json holds the open and fixed findings, /verif/seeded/ 215 independently authored seeded defects with their demonstrations (tools/seeded_all.sh re-applies each to /repo and runs the deciding check). Exit codes: 0 held, 1 violation (VIOLATION line with replay file), 2 harness error (build failure, nondeterminism, unreproducible replay).",
+        "notes": "See DESIGN.md (section 9 is the as-built account; 9.8 lists what each check varies). /verif/known_findings.json holds the open and fixed findings, /verif/seeded/ 245 independently authored seeded defects with their demonstrations (tools/seeded_all.sh re-applies each to /repo and runs the deciding check). Exit codes: 0 held, 1 violation (VIOLATION line with replay file), 2 harness error (build failure, nondeterminism, unreproducible replay).",
     }
     json.dump(m, open("/verif/MANIFEST.json","w"), indent=1)
     print("claimed", sorted(CLAIMED), "n/a", len(na))
